@@ -209,7 +209,9 @@ class Runner:
         elif op == 'close':
             unfinished = [k for k, t in enumerate(self.tasks) if not t.done() and k in self.entered]
             self.inflight_at_close.append((bi, unfinished, self.stages(),
-                                          {'creates': ce.connects, 'fails': len(ce.failed_owners)}))
+                                          {'creates': ce.connects, 'fails': len(ce.failed_owners),
+                                           'protocol': self._conn_index(ce.channel._protocol)
+                                           if ce.channel._protocol is not None else None}))
             ce.channel.close()
         elif op in ('lose', 'goaway', 'pause', 'resume', 'hold'):
             c = st[1]
